@@ -25,6 +25,7 @@ structure RT2 (e : Expr) : Prop where
   wrapped : Tower2 d 2 [grp (toksE2 d ch e)] e
   head : Head2 d e (toksE2 d ch e)
   nocomma : NoComma (toksE2 d ch e)
+  len : (toksE2 d ch e).length ≤ tl e
 
 variable {d} {ch}
 theorem stop2_of {L : Nat} {t : Tok} (x : List Tok) (h : stopTok d L t = true) (ho : t.srcEqUp "OVER" = false) :
@@ -384,8 +385,8 @@ theorem Tower2.relevel {ts x} {L0 : Nat} (T : Tower2 d L0 ts x) (L1 : Nat)
    fun g => T.s12 (h.2.2.2.2.2.1 g), fun g => T.c13 (h.2.2.2.2.2.2 g), fun g => T.s13 (h.2.2.2.2.2.2 g), T.c14, T.s14⟩
 
 theorem RT2.mk' {e : Expr} (own : Tower2 d (PR.lvl e) (toksE2 d ch e) e) (head : Head2 d e (toksE2 d ch e))
-    (nc : NoComma (toksE2 d ch e)) : RT2 d ch e :=
-  ⟨own, Tower2.of2 (full2_group e own.s14 head) (grp_headOK _), head, nc⟩
+    (nc : NoComma (toksE2 d ch e)) (hl : (toksE2 d ch e).length ≤ tl e) : RT2 d ch e :=
+  ⟨own, Tower2.of2 (full2_group e own.s14 head) (grp_headOK _), head, nc, hl⟩
 
 /-- the head of a binary node's rendering is the head of its left child's rendering -/
 theorem head_left {e l : Expr} (hl : RT2 d ch l) (L : Nat) (ys : List Tok) (hL : PR.lvl e ≤ 10 → L ≤ 10) :
